@@ -1,4 +1,5 @@
 import HexProofs.Manager.Trim
+import HexProofs.Writes.MembersC15
 import HexProofs.Manager2.TrimTf
 import HexProofs.Manager2.ShiftInst
 import HexProofs.Manager2.TwinSched
@@ -582,5 +583,99 @@ example : ((runTtf (.atr 3) "ATR_3").toOption.map (·.map view)).isSome = true :
 
 #print axioms C15b_trees_tf
 #print axioms C15b_trees_tf_fill
+
+/-! ### second clause for MEMBERS OF A HEXITAL (HexProofs/Writes/MembersC15.lean) -/
+
+/-- **C15, second clause, inside a Hexital – member without timeframe of a Hexital without timeframe** (all 27 classes).
+`HA`: the Hexital constructed with `candles_lifespan = life`, `calculate()`d and fed the chunks; `HB`: the same
+Hexital (same members – any kinds, any timeframes –, same candles) without lifespan.  Under the hypothesis of
+`C15b_trees_look` the member's manager in `HA` shows the view of its manager in `HB` minus `d` leading candles
+(OHLCV, stamps, top readings, helper and `_data` series), and every column read through `reading_as_list` is the
+untrimmed column minus `d`. -/
+theorem C15b_member_look {N : List String} {members : List (Member F)} {mem : Member F}
+    (hm : MemberHyps N members mem) (k : Kind F) (name : String) (round : Nat) (hc : CoveredTreeX name k)
+    (htree : mem.tree = mkTop k name round) (hnone : mem.tfName = none)
+    (life : Int) (init : List (Candle F)) (chunks : List (List (Candle F)))
+    (hp : ∀ c ∈ init ++ chunks.flatten, Plain c) (hinit : trimCandles (some life) init = .ok init)
+    (hret : RetainsFrom (treeLook k name round) life init init.length chunks) (HA HB : Hexital F)
+    (hA : runHexSched (cfgLife life) none init members chunks = .ok HA)
+    (hB : runHexSched {} none init members chunks = .ok HB) :
+    ∃ d mA mB, HA.memberManager mem.tree.name = some mA ∧ HB.memberManager mem.tree.name = some mB ∧
+      mA.cfg = cfgLife life ∧ mB.cfg = {} ∧
+      SameView mem.tree.allNames mA.candles (mB.candles.drop d) ∧
+      ∀ nm, (splitDot nm).headD "" = mem.tree.name → readOK N nm = true →
+        ∃ col, HB.readingAsList nm = .ok col ∧ HA.readingAsList nm = .ok (col.drop d) :=
+  member_C15b_look hm k name round hc htree hnone life init chunks hp hinit hret HA HB hA hB
+
+/-- **… members on a collapsing timeframe** – the member's own, or the Hexital's (`Member.effTf`); ANY Hexital-level
+timeframe `htfx`.  Hypotheses of `C15b_trees_tf` for the member's effective timeframe `tf`. -/
+theorem C15b_member_tf {N : List String} {members : List (Member F)} {mem : Member F}
+    (hm : MemberHyps N members mem) (k : Kind F) (name : String) (round : Nat) (hc : CoveredTreeX name k)
+    (htree : mem.tree = mkTop k name round) (htfx : Option Int) (tfn : Option String) (tf : Int) (htf : 0 < tf)
+    (heff : mem.effTf htfx = some tf) (life : Int) (init : List (Candle F)) (chunks : List (List (Candle F)))
+    (hraw : RawStream (init ++ chunks.flatten)) (hp : ∀ c ∈ init ++ chunks.flatten, Plain c)
+    (hinit : trimCandles (some life) (resample tf init) = .ok (resample tf init))
+    (hret : RetainsBuckets (treeLook k name round) tf life init 0 chunks) (HA HB : Hexital F)
+    (hA : runHexSched { tf := htfx, lifespan := some life } tfn init members chunks = .ok HA)
+    (hB : runHexSched { tf := htfx } tfn init members chunks = .ok HB) :
+    ∃ d mA mB, HA.memberManager mem.tree.name = some mA ∧ HB.memberManager mem.tree.name = some mB ∧
+      mA.cfg = { tf := some tf, lifespan := some life } ∧ mB.cfg = { tf := some tf } ∧
+      SameView mem.tree.allNames mA.candles (mB.candles.drop d) ∧
+      ∀ nm, (splitDot nm).headD "" = mem.tree.name → readOK N nm = true →
+        ∃ col, HB.readingAsList nm = .ok col ∧ HA.readingAsList nm = .ok (col.drop d) :=
+  member_C15b_tf hm k name round hc htree htfx tfn tf htf heff life init chunks
+    ⟨hraw.stamped, hraw.plain, hraw.sorted, hp⟩ hinit hret HA HB hA hB
+
+/-- **… and with `timeframe_fill = True`** (hypotheses of `C15b_trees_tf_fill`) -/
+theorem C15b_member_tf_fill {N : List String} {members : List (Member F)} {mem : Member F}
+    (hm : MemberHyps N members mem) (k : Kind F) (name : String) (round : Nat) (hc : CoveredTreeX name k)
+    (htree : mem.tree = mkTop k name round) (htfx : Option Int) (tfn : Option String) (tf : Int) (htf : 0 < tf)
+    (heff : mem.effTf htfx = some tf) (life : Int) (init : List (Candle F)) (chunks : List (List (Candle F)))
+    (hraw : RawStream (init ++ chunks.flatten)) (hp : ∀ c ∈ init ++ chunks.flatten, Plain c)
+    (hinit : trimCandles (some life) (fillSpec tf init) = .ok (fillSpec tf init))
+    (hret : RetainsFilled (treeLook k name round) tf life init 0 chunks) (HA HB : Hexital F)
+    (hA : runHexSched { tf := htfx, fill := true, lifespan := some life } tfn init members chunks = .ok HA)
+    (hB : runHexSched { tf := htfx, fill := true } tfn init members chunks = .ok HB) :
+    ∃ d mA mB, HA.memberManager mem.tree.name = some mA ∧ HB.memberManager mem.tree.name = some mB ∧
+      mA.cfg = { tf := some tf, fill := true, lifespan := some life } ∧ mB.cfg = { tf := some tf, fill := true } ∧
+      SameView mem.tree.allNames mA.candles (mB.candles.drop d) ∧
+      ∀ nm, (splitDot nm).headD "" = mem.tree.name → readOK N nm = true →
+        ∃ col, HB.readingAsList nm = .ok col ∧ HA.readingAsList nm = .ok (col.drop d) :=
+  member_C15b_tf_fill hm k name round hc htree htfx tfn tf htf heff life init chunks
+    ⟨hraw.stamped, hraw.plain, hraw.sorted, hp⟩ hinit hret HA HB hA hB
+
+
+/-- **First clause inside a Hexital** (`schedule_tf` for member managers): for a Hexital with `candles_lifespan = life`
+and any Hexital-level timeframe, the manager of a member whose effective timeframe is `tf` retains – after
+construction, `calculate()` and any appends – exactly the `tf`-buckets of the raw stream received that are not older
+than the newest bucket stamp minus the lifespan (OHLCV / stamps; the reading dicts hold the members' readings). -/
+theorem window_member_tf {N : List String} {members : List (Member F)} {mem : Member F}
+    (hm : MemberHyps N members mem) (htfx : Option Int) (tfn : Option String) (tf : Int) (htf : 0 < tf)
+    (heff : mem.effTf htfx = some tf) (life : Int) (hlife : 0 ≤ life)
+    (init : List (Candle F)) (chunks : List (List (Candle F))) (h : RawStream (init ++ chunks.flatten))
+    (H : Hexital F) (hrun : runHexSched { tf := htfx, lifespan := some life } tfn init members chunks = .ok H) :
+    ∃ n' m, H.memberManager mem.tree.name = some m ∧
+      m.candles.map Candle.core
+        = ((resample tf (init ++ chunks.flatten)).filter (inWindow n' life)).map Candle.core ∧
+      (init ++ chunks.flatten = [] ∨ newest (resample tf (init ++ chunks.flatten)) = some n') := by
+  obtain ⟨n', h1, h2⟩ := schedule_tf tf htf life hlife init chunks h
+  obtain ⟨m, bm, e1, e2, _, e4⟩ := member_manager_bare_sched hm _ tfn init chunks H hrun
+  have hc : mem.effCfg { tf := htfx, lifespan := some life } = cfgTfLife tf life := by
+    rw [Member.effCfg_eq]; simp only [heff]; rfl
+  rw [hc] at e2
+  have : runSchedule (cfgTfLife tf life) init chunks = .ok bm := e2
+  rw [h1] at this
+  cases this
+  exact ⟨n', m, e1, e4, h2⟩
+
+/-- non-vacuity: `ATR_3` on `T2` in a Hexital with `SMA_2` (default manager), `EMA_2_T3` (`T3`), `RSI_2` (`T2`) -/
+example := @MembersC15Ex.applied_tf
+example := @MembersC15Ex.applied_look
+example := @MembersC15Ex.applied_fill
+
+#print axioms window_member_tf
+#print axioms C15b_member_look
+#print axioms C15b_member_tf
+#print axioms C15b_member_tf_fill
 
 end Hex.C15
